@@ -5,6 +5,8 @@ Reference level (`ref_*`): every failing branch, propagation through any number 
 call.  Evaluator level (`eval_*`): by the refinement theorem (C01) the evaluator reports the same failure and
 executes a subsequence of the reference calls; one-level propagation at the evaluator.
 `Sound`, `Closed`, `CanonOK`: see the header of Props/C01.lean.
+The text hypothesis `CanonOK` is discharged by C02's round trip for every class of `wfTop` queries: the `_wf`
+corollaries (last section).
 -/
 import LiquerModel.Ref
 import LiquerProofs.Inst.Vocab
@@ -12,6 +14,7 @@ import LiquerProofs.Lemmas.EvalErr
 import LiquerProofs.Lemmas.EvalCache
 import LiquerProofs.Lemmas.EvalExact
 import LiquerProofs.Lemmas.EvalExample
+import LiquerProofs.Lemmas.EvalCanon
 
 namespace Liquer.C06
 
@@ -236,6 +239,42 @@ example : Chain qOneBoom qBoom 1 ∧
 open Ex in
 example : Closed env0 C0 T0 ∧ (∀ q, C0 q → CanonOK env0 q) ∧ Sound env0 {} := ⟨closed0, canon0, Sound.empty _⟩
 
+/-! ### the canonical-text hypothesis discharged: closed classes of well-formed queries (C02's round trip) -/
+
+/-- every well-formed query of the class means what its canonical text means (Lemmas/EvalCanon.lean) -/
+theorem canon_of_wf {env : Env} (hd : DecOK env.dec) {C : Query → Prop}
+    (hwf : ∀ q, C q → wfTop Gen.escapeTable q = true) : ∀ q, C q → CanonOK env q :=
+  fun q hq => CanonOK.of_same (Canon.canonSame_of_wf env hd q (hwf q hq))
+
+/-- `eval_reports_failure` for a closed class of well-formed queries -/
+theorem eval_reports_failure_wf {env : Env} (hd : DecOK env.dec) {C : Query → Prop} {T : Str → Prop}
+    (hC : Closed env C T) (hwf : ∀ q, C q → wfTop Gen.escapeTable q = true) (n m : Nat) (w : World) (q : Query)
+    (raw : Str) (extra : Extra) (input : Option Val) (uc : Bool) (hS : Sound env w) (hCq : C q)
+    (huc : uc = true → input = none)
+    (hne : (evalQ env n w q raw extra input uc).2 ≠ .unmodelled)
+    (e : EState) (c : List Str) (href : refQ env m q raw extra input = (.st e, c)) (he : e.isError = true) :
+    ∃ e' c', (evalQ env n w q raw extra input uc).2 = .st e' ∧ e'.isError = true ∧ e'.data = e.data ∧
+      e'.errPos = e.errPos ∧ e'.errQuery = e.errQuery ∧
+      (evalQ env n w q raw extra input uc).1.calls = w.calls ++ c' ∧ c'.Sublist c :=
+  eval_reports_failure hC (canon_of_wf hd hwf) n m w q raw extra input uc hS hCq huc hne e c href he
+
+/-- `eval_reports_raise` for a closed class of well-formed queries -/
+theorem eval_reports_raise_wf {env : Env} (hd : DecOK env.dec) {C : Query → Prop} {T : Str → Prop}
+    (hC : Closed env C T) (hwf : ∀ q, C q → wfTop Gen.escapeTable q = true) (n m : Nat) (w : World) (q : Query)
+    (raw : Str) (extra : Extra) (input : Option Val) (uc : Bool) (hS : Sound env w) (hCq : C q)
+    (huc : uc = true → input = none)
+    (hne : (evalQ env n w q raw extra input uc).2 ≠ .unmodelled)
+    (a : Option Nat) (b : Option Str) (c : List Str) (href : refQ env m q raw extra input = (.raised a b, c)) :
+    ∃ c', (evalQ env n w q raw extra input uc).2 = .raised a b ∧
+      (evalQ env n w q raw extra input uc).1.calls = w.calls ++ c' ∧ c'.Sublist c :=
+  eval_reports_raise hC (canon_of_wf hd hwf) n m w q raw extra input uc hS hCq huc hne a b c href
+
+-- non-vacuity of the `_wf` hypotheses: the decoder of the example environment is a decoder and the example family
+-- (closed; it contains the failing query `one/boom/add-2`) consists of well-formed queries
+open Ex in
+example : DecOK env0.dec ∧ Closed env0 C0 T0 ∧ (∀ q, C0 q → wfTop Gen.escapeTable q = true) ∧ Sound env0 {} :=
+  ⟨decUtf8_ok, closed0, by intro q hq; rcases hq with rfl | rfl | rfl | rfl <;> decide +kernel, Sound.empty _⟩
+
 end Liquer.C06
 
--- OBLIGATIONS: Liquer.C06.inst_registry Liquer.C06.fail_state_spec Liquer.C06.ref_unknown_command Liquer.C06.ref_bad_arguments Liquer.C06.ref_command_raises Liquer.C06.ref_sub_fails Liquer.C06.ref_sub_unparsable Liquer.C06.ref_failure_has_no_data Liquer.C06.ref_link_fails Liquer.C06.ref_link_fails_after Liquer.C06.ref_abort_after_link Liquer.C06.ref_params_abort Liquer.C06.ref_error_stops Liquer.C06.ref_error_stops_chain Liquer.C06.ref_raised_stops_chain Liquer.C06.eval_reports_failure Liquer.C06.eval_reports_raise Liquer.C06.eval_reports_failure_nocache Liquer.C06.eval_error_stops
+-- OBLIGATIONS: Liquer.C06.inst_registry Liquer.C06.fail_state_spec Liquer.C06.ref_unknown_command Liquer.C06.ref_bad_arguments Liquer.C06.ref_command_raises Liquer.C06.ref_sub_fails Liquer.C06.ref_sub_unparsable Liquer.C06.ref_failure_has_no_data Liquer.C06.ref_link_fails Liquer.C06.ref_link_fails_after Liquer.C06.ref_abort_after_link Liquer.C06.ref_params_abort Liquer.C06.ref_error_stops Liquer.C06.ref_error_stops_chain Liquer.C06.ref_raised_stops_chain Liquer.C06.eval_reports_failure Liquer.C06.eval_reports_raise Liquer.C06.eval_reports_failure_nocache Liquer.C06.eval_error_stops Liquer.C06.canon_of_wf Liquer.C06.eval_reports_failure_wf Liquer.C06.eval_reports_raise_wf
